@@ -127,15 +127,26 @@ func c10Templates() []c10Tmpl {
 			}
 		}
 	}
+	// a simplifiable float comparison below a call or a function literal, inside a boolean expression that has
+	// no float operand of its own
+	for _, ty := range []string{"float64", "celsius", "int"} {
+		inners := []string{"!(a > b)", "!(a >= b)", "!(a < b)", "!(a == b)", "a+1 > b", "a-1 < b", "a >= 1 && a < 2", "!(a < 1 || b >= 2)"}
+		for _, in := range inners {
+			for wi, w := range []string{"!k && acc(%s)", "k || acc(%s)", "!acc(%s)", "!k == acc(%s)", "k || !ev(func() bool { return %s })", "!ev(func() bool { return %s }) && k"} {
+				add(c10Tmpl{Family: fmt.Sprintf("nested-under-call#%d", wi), Types: ty + " " + in, Params: []c10Param{{"a", ty}, {"b", ty}, {"k", "bool"}}, Result: "bool",
+					Body: "acc := func(v bool) bool { return v }\n\tev := func(f func() bool) bool { return f() }\n\t_, _ = acc, ev\n\treturn " + fmt.Sprintf(w, in)})
+			}
+		}
+	}
 	add(c10Tmpl{Family: "impure-negated-comparison", Types: "int", Params: []c10Param{{"a", "int"}}, Result: "bool", Body: "return !(g(a) == g(a+1))"})
 	add(c10Tmpl{Family: "bool-literal-comparison", Types: "bool", Params: []c10Param{{"a", "bool"}}, Result: "bool", Body: "return !(a == true) || !(a != false)"})
 	// ---- assignOp
-	for _, ty := range []string{"int", "uint8", "float64", "string"} {
+	for _, ty := range []string{"int", "uint8", "float64", "celsius", "string", "mystr"} {
 		ops := []string{"+", "-", "*", "/"}
 		if ty == "int" || ty == "uint8" {
 			ops = append(ops, "%", "&", "|", "^", "<<", ">>", "&^")
 		}
-		if ty == "string" {
+		if ty == "string" || ty == "mystr" {
 			ops = []string{"+"}
 		}
 		for _, op := range ops {
